@@ -807,6 +807,13 @@ def getattr_(fr, base, attr, node):
         if attr.startswith("__") and attr.endswith("__"):
             # attributes every class object has (or may inherit from a metaclass): not modelled — never reported as a crash of the code
             raise Abort(f"class attribute {ci.name}.{attr} is not modelled")
+        # a class whose attributes can be created when it is DEFINED (an __init_subclass__ hook, a metaclass, a class decorator)
+        # or looked up dynamically may well have the attribute: not modelled — never reported as a crash of the code
+        dyn = [c.name for c in repo.mro(ci) if any(m_ in c.methods for m_ in ("__init_subclass__", "__getattr__", "__class_getitem__", "__set_name__"))
+               or any(k.arg == "metaclass" for k in getattr(c.node, "keywords", []))
+               or any(not d.startswith(("enum.", "unique", "dataclass", "dataclasses.", "functools.total_ordering", "total_ordering")) for d in c.decorators)]
+        if dyn:
+            raise Abort(f"class attribute {ci.name}.{attr}: attributes of {dyn[0]} may be created at class-definition time (not modelled)")
         raise PathRaise("AttributeError", f"{ci.name}.{attr}")
     if isinstance(base, ModRef):
         try:
@@ -1763,7 +1770,14 @@ def method(fr, base, name, args, kw, n):
                 return I.opaque(f"str/bytes method {name} on abstract", notnone=True)
         if isinstance(base, list) and name in ("append", "extend", "insert", "pop", "remove", "index", "copy", "clear", "reverse", "sort", "count"):
             if name == "index" and args:
-                args = [I.simp_fin(args[0])] + list(args[1:])
+                bounds = []
+                for b_ in args[1:]:
+                    b_ = I.simp_fin(b_)
+                    if isinstance(b_, AFin):
+                        raise NeedCases(sorted(b_.atoms))
+                    c_ = const_of(fr, b_) if isinstance(b_, (AInt, int)) else None
+                    bounds.append(c_ if c_ is not None else fr.cint(b_))
+                args = [I.simp_fin(args[0])] + bounds
                 base = [I.simp_fin(e) for e in base]
             if name == "index" and args and (isinstance(args[0], AFin) or any(isinstance(e, AFin) for e in base)):
                 # finite-function operands: decided exactly case by case over ALL atoms involved (needle and haystack)
@@ -1775,7 +1789,10 @@ def method(fr, base, name, args, kw, n):
                     raise Abort("list.index over too many finite-function atoms")
                 raise NeedCases(sorted(acc))
             if name == "index" and args and is_abs(args[0]):
+                lo_, hi_, _ = slice(*(list(args[1:3]) + [None] * (2 - len(args[1:3])))).indices(len(base)) if len(args) > 1 else (0, len(base), 1)
                 for k, e in enumerate(base):
+                    if not lo_ <= k < hi_:
+                        continue
                     cand = ABits(fr.to_bitlist(e), "list") if isinstance(e, (list, tuple)) and isinstance(args[0], ABits) else e
                     if I.decide(eq(fr, cand, args[0], n), f"index:{n.lineno}"):
                         return k
@@ -1992,6 +2009,23 @@ def bits_method(fr, b: ABits, name, args, kw, n):
         return I.opaque("to01()", notnone=True)
     if name == "decode":
         return I.opaque("decode()", notnone=True)
+    if name in ("any", "all") and not args and b.kind != "bytes":
+        # bitarray.any() / .all(): "not all zero" / "all one" — a conjunction of linear equalities, decided by trace partitioning
+        forms = I.simp_bits(b.items)
+        if not forms:
+            return name == "all"
+        if any(isinstance(x, OB) for x in forms):
+            return I.opaque(f"{name}() of unspecified bits")
+        if name == "any":
+            return not I.decide_eq(forms, 0, f"{fr.fi.name}:{n.lineno}:any")
+        return I.decide_eq([x ^ 1 for x in forms], 0, f"{fr.fi.name}:{n.lineno}:all")
+    if name == "count" and b.kind != "bytes" and (not args or (len(args) == 1 and args[0] in (0, 1, True, False))):
+        forms = I.simp_bits(b.items)
+        want = 1 if not args else int(args[0])
+        if all(isinstance(x, F) and x.is_const for x in forms):
+            return sum(1 for x in forms if x.c == want)
+        if not any(isinstance(x, OB) for x in forms):
+            return APop(forms if want == 1 else [x ^ 1 for x in forms])
     if name == "count":
         return I.opaque("count()")
     if name == "index" and b.kind == "list":
